@@ -25,7 +25,12 @@ matching exactly there; the float allowance REL_TOL is therefore tied to binary6
 The failing-input search adds dynamic-range variants of the recorded graph (one pair re-written with a 1e10 / 1e12
 penalty) and a fixed family of small graphs of every weight law.
 The Blossom V backend path is exercised through a STAND-IN library (qv/c13_standin.py, qv/c13_pypm_standin.c): the real
-wrapper code runs in child processes, Blossom V itself is replaced and stays unverified.
+wrapper code runs in child processes, Blossom V itself is replaced and stays unverified.  The Lean model of that wrapper
+(Model/Blossom5.lean: mwpmIds / mwpmObjs / mwpmBlossom5, and the dispatch Matching.mwpm; the theorems of
+Props/C14/Blossom.lean rest on it) is TIED to the real code there: for every stand-in call the arrays the C function
+received and the mates array it left behind (dumped by the C code itself), the observed `list(set(...))` node listing and
+the Python result are compared for exact equality with the driver ops `c13 b5ids / b5objs / b5gt / b5mwpm` (clib := table
+look-up of the recorded mates array), error paths included (contiguity assert of mwpm_ids, empty-graph shortcut).
 Node kinds include orderable-but-not-totally-ordered objects (Timed, frozensets); weight laws include uniformly tiny
 weights (k * 2**-e judged exactly, k * 10**-e judged relative to max|w| — the tolerance has no absolute floor).
 LEVEL = 'proof' refers to the wrapper + oracle theorems only.
@@ -72,7 +77,11 @@ RULE = ('(a) random insertion sequences into the real SimpleGraph (nodes: ints, 
         'graphs mixing tiny weights with weights >= infty/10 (multiples of 2**32, C-int limits, the threshold), parallel '
         'edges, empty inputs, call histories, decoder graphs; every answer: perfect matching, minimum ORIGINAL weight '
         'within the documented scaling allowance (n/2)/s (exact when the documented rule is the identity), minimum INTEGER '
-        'weight as handed over (Lean oracle, exact), handed integer weights = model weight_to_int. '
+        'weight as handed over (Lean oracle, exact), handed integer weights = model weight_to_int; and the wrapper model '
+        'Model/Blossom5.lean run by the driver on the same argument, the observed list(set(...)) node listing and the mates '
+        'array the C code dumped (clib := table look-up) must reproduce exactly the id edge arrays nodes_a / nodes_b / '
+        'weights and n_nodes the C function received, the assert outcome (non-contiguous ids: assert, no C call), the id '
+        'pairs of mwpm_ids, the node pairs returned, the empty-graph shortcut and the gt.mwpm dispatch. '
         'non-trivial = graph with >= 4 nodes or an insertion sequence with a re-inserted pair')
 
 
@@ -1261,6 +1270,16 @@ def run(ctx):
         'optimality, its int overflow behaviour or its real infty() value; the stand-in itself is trusted only as far as '
         'its answers are re-checked (every answer is judged by the verified Lean oracle / the Python DP)'.format(
             blossom5.available()),
+        'the wrapper model of Model/Blossom5.lean (mwpmIds <-> blossom5.mwpm_ids, mwpmObjs <-> blossom5.mwpm, mwpmBlossom5 '
+        '<-> gt.mwpm_blossom5, Matching.mwpm <-> the dispatch of gt.mwpm), on which Props/C14/Blossom.lean rests, is tied to '
+        'the real wrapper by comparison on every stand-in call (driver ops c13 b5ids / b5objs / b5gt / b5mwpm): its two '
+        'parameters are instantiated with what was observed — `nodes` with the list(set(...)) listing rebuilt in the child '
+        'from the very edge list handed to blossom5.mwpm (same objects, same insertion sequence, same process), `clib` with '
+        'a table look-up of the mates array the stand-in C code dumped — and the id edge arrays / n_nodes at the C boundary '
+        '(as dumped by the C code), the assert outcome, the id pairs and the node pairs must be equal. Outside the tie: '
+        'ctypes itself (a c_int slot keeps the low 32 bits of a Python int: applied by the harness to the model\'s '
+        'weights before comparing with the C-side weights), negative ids / a C answer of -1 (no perfect matching; the model '
+        'has natural-number ids, such calls are counted and skipped), and Blossom V\'s own contract (Blossom5.ClibContract)',
         'Blossom path, float or large-int weights: the docstring of weight_to_int_fn promises scaling by s = infty/10/max|w| '
         'and rounding to integers, so optimality on the ORIGINAL weights is claimed only up to (n/2)(1+1e-6)/s; exact when '
         'the documented rule is the identity (all Python ints, max|w| < infty/10) or all weights are zero',
@@ -1316,8 +1335,12 @@ def run(ctx):
                      'mutations), graphs built by the five MWPM decoders; every answer judged by the Python DP (<= 16 '
                      'nodes) and by the Lean driver (<= 14 nodes): perfect matching of minimum ORIGINAL weight within '
                      'the documented rounding allowance, of minimum INTEGER weight as handed to the C library (exact), '
-                     'and the handed integer weights = model weight_to_int (w2i). Blossom V itself is replaced, not '
-                     'verified'),
+                     'and the handed integer weights = model weight_to_int (w2i); every call that reaches the wrapper is also '
+                     'replayed on the wrapper model Model/Blossom5.lean (observed node listing, recorded mates array as '
+                     'clib table): C-boundary arrays, n_nodes, assert outcome, id pairs, node pairs, empty shortcut and '
+                     'dispatch equal ({} such comparisons in this run). Blossom V itself is replaced, not '
+                     'verified'.format(sum(v for k, v in ctx.hist.get('standin.tie', {}).items()
+                                           if not str(k).startswith('skipped')))),
             'exhaustive': False},
         'weight_to_int_fn_float_ops': {
             'evaluations': n4 - n3,
